@@ -5,6 +5,7 @@ from props import _discrete as D
 from vlib.coqfmt import clist, cbool
 
 ENV_BY_TIER = {"quick": {"NUMBA_DISABLE_JIT": "1"}, "thorough": {}}
+ENV = {"XDG_CACHE_HOME": "/verif/.work/disc/cache"}
 COQ_REQ = ("lib.Num", "model.Discrete", "model.DiscreteFloat")
 TOL = 1e-9          # linear vs logarithmic results (measured on the unchanged tree: see evidence notes)
 
@@ -13,7 +14,12 @@ RULE = ("(a) units: LogLikelihoods.logsumexp on vectors of length 0-12 with -inf
         "triangular arrays, grid sizes 2-8, with zeros / -inf; (b) whole inside+outside runs of both classes on "
         "msprime tree sequences (2-6 samples, recombination, renumbered nodes) and single trees, random prior grids "
         "with zeros, cached and uncached g_i, outside standardisation on and off, eps in {0 exactly, 1e-300, API default, "
-        "0.25, 1e-8..0.1} (the same value for both spaces); (c) oracle: the public "
+        "0.25, 1e-8..0.1} (the same value for both spaces), ignore_oldest_root on 30%, num_threads None/1(/2), "
+        "numpy-typed option values, 20% of the multi-tree inputs with a chain of unary nodes (allow_unary=True), ~40% of "
+        "all inputs with vlib.gen.exotic decorations (extra flag bits, ALL nodes renumbered, mutation-free sites, allele "
+        "strings, populations, mutation times), 15% with tied node times; (c) oracle: explicit prior rows or a prior built "
+        "by tsdate.build_prior_grid (exact / approximate / gamma, 4-20 timepoints, allow_unary), on 30% ONE priors "
+        "object reused by all four calls; thorough: 10 larger inputs (12-25 samples); the public "
         "inside_outside and maximization functions run in both spaces on the same input. A case is non-trivial "
         "when the input has mutations and >= 2 internal nodes; distinct by content hash."
         "About half of the inputs carry 1-3 extra mutations that sit on NO edge (above the root of the local tree; valid tskit input); the references count only mutations on edges, computed from the tables.")
@@ -149,38 +155,71 @@ def _gen_cases(ctx, n_single, n_multi):
         d = D.canon(D.add_mutations(d, [rng.choice([0, 0, 1, 1, 2, 3]) for _ in d["edges"]], rng))
         if rng.random() < 0.5:
             d, _ = D.renumber(d, rng)
-        cases.append(D.make_case(rng, d, kind="single", space=D.LOG, cache_inside=rng.random() < 0.5,
-                                 out_std=rng.random() < 0.6))
+        cases.append(D.make_case(rng, d, kind="single", space=D.LOG, **run_options(ctx)))
     for _ in range(n_multi):
         d = D.sim_dict(rng, n=rng.randint(2, 6))
         if rng.random() < 0.7:
             d, _ = D.renumber(d, rng)
-        cases.append(D.make_case(rng, d, kind="multi", space=D.LOG, cache_inside=rng.random() < 0.5,
-                                 out_std=rng.random() < 0.6))
+        unary = False
+        if rng.random() < 0.2:
+            d2 = D.add_unary_chain(d, rng)
+            if d2 is not None:
+                d, unary = d2, True
+        cases.append(D.make_case(rng, d, kind="multi" + ("+unary" if unary else ""), space=D.LOG,
+                                 allow_unary=unary, **run_options(ctx)))
+    if ctx.tier == "thorough":
+        for _ in range(10):       # a few larger inputs (oracle only; the linear space may underflow: premise)
+            d = D.sim_dict(rng, n=rng.randint(12, 25), big=True)
+            d, _ = D.renumber(d, rng)
+            cases.append(D.make_case(rng, d, kind="big", space=D.LOG, **run_options(ctx)))
     return cases
 
 
-def api_run(case, space, method):
+def run_options(ctx):
+    """options of one case; the same values go to every call (both spaces, both methods)"""
+    rng = ctx.rng
+    o = D.random_options(rng, ctx.tier == "thorough")
+    o["ignore_oldest_root"] = rng.random() < 0.3
+    o["prior_kind"] = rng.choice(D.PRIOR_KINDS)
+    o["prior_timepoints"] = rng.choice([4, 8, 20])
+    o["share_priors"] = rng.random() < 0.3          # ONE priors object reused by all calls (state leaking)
+    return o
+
+
+def api_run(case, space, method, shared=None):
     import tsdate
     c = dict(case, space=space)
     ts = D.ts_from_dict(c["ts"])
-    pr = D.make_priors(c, ts)
+    if shared is not None and "priors" in shared:
+        pr = shared["priors"]              # the object a previous call (other space / method) has used
+    else:
+        pr = D.priors_for(c, ts)
+        if shared is not None:
+            shared["priors"] = pr
+    extra = {"allow_unary": True} if c.get("allow_unary") else {}
     if method == "inside_outside":
         new, fit, lik = tsdate.inside_outside(
-            ts, mutation_rate=c["mu"], priors=pr, eps=c["eps"], probability_space=space,
-            outside_standardize=bool(c.get("out_std", True)), cache_inside=bool(c.get("cache_inside")),
-            return_fit=True, return_likelihood=True, record_provenance=False)
+            ts, mutation_rate=D.opt(c, "mu", c["mu"]), priors=pr, eps=D.opt(c, "eps", c["eps"]),
+            probability_space=space, num_threads=c.get("num_threads"),
+            outside_standardize=D.opt(c, "out_std", bool(c.get("out_std", True))),
+            ignore_oldest_root=D.opt(c, "ign", bool(c.get("ignore_oldest_root"))),
+            cache_inside=D.opt(c, "cache", bool(c.get("cache_inside"))),
+            return_fit=True, return_likelihood=True, record_provenance=False, **extra)
         post = fit.node_posteriors()
         post = np.array([[float(row[k]) for k in post.dtype.names] for row in post])
         mn = [n.metadata.get("mn") if n.metadata else None for n in new.nodes()]
         vr = [n.metadata.get("vr") if n.metadata else None for n in new.nodes()]
         return {"times": [float(x) for x in new.nodes_time], "post": post, "lik": float(lik), "mn": mn, "vr": vr,
+                "grid": [float(x) for x in fit.lik.timepoints],
                 "inside": D.inside_rows(fit, ts.num_nodes),
                 "outside": [([float(a) for a in fit.outside[u]] if np.ndim(fit.outside[u]) == 1 else None)
                             for u in range(ts.num_nodes)]}
-    new, fit = tsdate.maximization(ts, mutation_rate=c["mu"], priors=pr, eps=c["eps"], probability_space=space,
-                                   return_fit=True, record_provenance=False)
+    new, fit = tsdate.maximization(ts, mutation_rate=D.opt(c, "mu", c["mu"]), priors=pr, eps=D.opt(c, "eps", c["eps"]),
+                                   probability_space=space, num_threads=c.get("num_threads"),
+                                   cache_inside=D.opt(c, "cache", bool(c.get("cache_inside"))),
+                                   return_fit=True, record_provenance=False, **extra)
     return {"times": [float(x) for x in new.nodes_time], "pm": [float(x) for x in fit.posterior_mean],
+            "grid": [float(x) for x in fit.lik.timepoints],
             "inside": D.inside_rows(fit, ts.num_nodes), "fit": fit}
 
 
@@ -222,12 +261,13 @@ def oracle_case(ctx, case, stats):
     rp = {"case": case}
     log = lin = None
     elog = elin = None
+    shared = {} if case.get("share_priors") else None
     try:
-        log = api_run(case, D.LOG, "inside_outside")
+        log = api_run(case, D.LOG, "inside_outside", shared)
     except Exception as e:
         elog = e
     try:
-        lin = api_run(case, D.LIN, "inside_outside")
+        lin = api_run(case, D.LIN, "inside_outside", shared)
     except Exception as e:
         elin = e
     if elog is not None:
@@ -269,11 +309,11 @@ def oracle_case(ctx, case, stats):
     mlog = mlin = None
     emlog = emlin = None
     try:
-        mlog = api_run(case, D.LOG, "maximization")
+        mlog = api_run(case, D.LOG, "maximization", shared)
     except Exception as e:
         emlog = e
     try:
-        mlin = api_run(case, D.LIN, "maximization")
+        mlin = api_run(case, D.LIN, "maximization", shared)
     except Exception as e:
         emlin = e
     if emlog is not None:
@@ -296,8 +336,9 @@ def oracle_case(ctx, case, stats):
     if mlin["pm"] != mlog["pm"]:
         # numerically tied timepoints may be broken differently: the log-space choice must satisfy the
         # documented rule evaluated in linear space up to 1e-9, and vice versa
-        il = D.grid_index(case["grid"], mlog["pm"])
-        bad = D.rule_check(dict(direct(case), space=D.LIN), mlin["inside"], il, tol=1e-9) if None not in il else [("?", "off grid")]
+        il = D.grid_index(mlin["grid"], mlog["pm"])
+        bad = D.rule_check(dict(direct(case), space=D.LIN, grid=mlin["grid"]), mlin["inside"], il, tol=1e-9) \
+            if None not in il else [("?", "off grid")]
         if bad:
             ctx.oracle_fail("maximization-spaces-differ",
                             "maximization picks %r in linear and %r in logarithmic space (no tie: %r)"
@@ -317,6 +358,8 @@ def run(ctx, model_ok=True):
     if model_ok:
         both = []
         for c in cases:
+            if c["kind"] == "big":
+                continue
             both.append(direct(c))
             both.append(dict(direct(c), space=D.LIN))
         res = []
